@@ -9,6 +9,7 @@ import (
 	"fmt"
 	"runtime"
 	"sync"
+	"sync/atomic"
 	"time"
 
 	"github.com/sheerbytes/sheerbytes/internal/app"
@@ -24,6 +25,7 @@ type admStormSpec struct {
 	Peers   int `json:"peers"`
 	Workers int `json:"workers"`
 	Millis  int `json:"millis"`
+	Cleaners int `json:"cleaners"` // goroutines that push the clock past the idle TTL and run the host's clean-up tick
 }
 
 func admStorm(args []string) string {
@@ -101,9 +103,10 @@ func admStorm(args []string) string {
 		mu.Unlock()
 		return nil
 	}
+	var clockOffset atomic.Int64
 	s := app.VerifNewSender(g.Max, time.Hour, func() time.Time {
 		runtime.Gosched()
-		return time.Now()
+		return time.Now().Add(time.Duration(clockOffset.Load()))
 	}, fn)
 	sender = s
 	bg := context.Background()
@@ -136,6 +139,28 @@ func admStorm(args []string) string {
 				case 4:
 					s.Left(p)
 				}
+			}
+		}()
+	}
+	for c := 0; c < g.Cleaners; c++ {
+		c := c
+		wg.Add(1)
+		go func() {
+			defer wg.Done()
+			defer func() {
+				if r := recover(); r != nil {
+					panics.Store(1000+c, fmt.Sprint(r))
+				}
+			}()
+			for {
+				select {
+				case <-stop:
+					return
+				default:
+				}
+				clockOffset.Add(int64(2 * time.Hour)) // everybody who is not being served has now been idle past the TTL
+				s.Cleanup()
+				time.Sleep(30 * time.Microsecond)
 			}
 		}()
 	}
